@@ -94,7 +94,7 @@ func (f *AdjustArray) Call(s *slip.Scope, args slip.List, depth int) (result sli
 	}
 	switch ta := args[1].(type) {
 	case slip.Fixnum:
-		dims = []int{int(ta)}
+		dims = []int{slip.CheckDimension(s, depth, "dimensions", ta)}
 	case slip.List:
 		for _, v := range ta {
 			if num, _ := v.(slip.Fixnum); 0 < num {
